@@ -1667,7 +1667,9 @@ func (b *Body) unwrapMethodOf(t types.Type) *ssa.Function {
 	if n == nil || n.Obj().Pkg() != b.Lib.Pkg {
 		return nil
 	}
-	for _, recv := range []types.Type{n, types.NewPointer(n)} {
+	// the method set of the dynamic type as it is: a value of T does not have the methods
+	// declared on *T, so errors.Is cannot unwrap it through one of those
+	for _, recv := range []types.Type{t} {
 		ms := b.Lib.Prog.MethodSets.MethodSet(recv)
 		if sel := ms.Lookup(b.Lib.Pkg, "Unwrap"); sel != nil {
 			if f := b.Lib.Prog.MethodValue(sel); f != nil && len(f.Blocks) > 0 {
